@@ -6,7 +6,7 @@ CONSTANTS
   TailChars = {"0", "1", "2", ":", "-", "x", "_"}
   MaxPTail = 4
   MaxDTail = 4
-  MaxD2Tail = 5
+  MaxD2Tail = 4
   PayChars = {":", "_", "1", "x"}
   MaxPay = 2
   MaxDeltaPay = 2
@@ -15,6 +15,6 @@ CONSTANTS
   Offs = {0, 1, 2, 10, 12}
   MaxBasePay = 1
   BaseOffs = {12}
-  SubstChars = {"_", ":", "0", "1", "2", "-", "x", "p"}
+  SubstChars = {"_", ":", "0", "2", "-", "x"}
 INVARIANTS Total RoundTrip Canonical
 CHECK_DEADLOCK FALSE
